@@ -67,7 +67,13 @@ func (n *Node) closeStream(cn *Conn, p *memd.Packet, e *Entry, res *memd.Packet)
 		n.reply(cn, e, res)
 		return
 	}
+	c.mu.Lock()
+	old := c.NoClientCloseEnd
+	c.mu.Unlock()
 	n.reply(cn, e, res)
+	if old {
+		return
+	}
 	// send_stream_end_on_client_close_stream: the producer confirms with STREAM_END(closed)
 	s.End(memd.StreamEndClosed)
 }
